@@ -28,7 +28,9 @@ func c03Positions(keys []string, hooks []eng.Hook) []func(*eng.Op) {
 			out = append(out, func(o *eng.Op) { o.HFault = &eng.HFault{Name: n, Nth: nth} })
 		}
 	}
+	// the readiness wait, in both branches of the action (Wait / WaitWithJobs)
 	out = append(out, func(o *eng.Op) { o.WaitFail = true })
+	out = append(out, func(o *eng.Op) { o.WaitFail = true; o.Flags.WaitForJobs = true })
 	return out
 }
 
@@ -93,6 +95,9 @@ func c03Exhaustive(tier string) []any {
 	// quick: install ; upgrade(faulted) — all positions x 8 flag sets; install(faulted) alone x 4 flag sets
 	out = append(out, c03Enumerate([]*eng.Op{i1}, u2, keys12, c03Hooks, flagCombos(true, true))...)
 	out = append(out, c03Enumerate(nil, i1, keyUnion(i1.Manifest), c03Hooks, flagCombos(true, false))...)
+	// ... and install ; upgrade ; rollback(faulted) x cleanup-on-fail / no-hooks
+	rbq := c12Op("rollback", 0, eng.Flags{}, nil)
+	out = append(out, c03Enumerate([]*eng.Op{i1, u2}, rbq, keys12, c03Hooks, flagCombos(false, true))...)
 	if tier != "thorough" {
 		return out
 	}
@@ -142,6 +147,7 @@ func c03Gen(r *rand.Rand) eng.History {
 	op.Flags.Atomic = kind != "rollback" && r.Intn(3) == 0
 	op.Flags.Cleanup = kind != "install" && r.Intn(3) == 0
 	op.Flags.NoHooks = r.Intn(5) == 0
+	op.Flags.WaitForJobs = r.Intn(3) == 0
 	if kind == "install" {
 		op.Flags.Replace = r.Intn(2) == 0
 	}
